@@ -332,9 +332,55 @@ class Gen:
                 comps.append(self.aggregate(onm))
             elif "agg" in f and c < 0.56:
                 comps.append(("when", self.boolv(2), self.aggregate()))
+            elif "control" in f and c < 0.66:
+                comps.append(self.control())
+            elif "fail" in f and c < 0.72:
+                comps.append(self.failform())
+            elif "print" in f and c < 0.82:
+                comps.append(self.printc(onm))
             else:
                 comps.append(self.boolv(3))
+        if "control" in f and r.random() < 0.25 and mode == "AND":
+            comps.append(("when", ("fn", "last", [], []), r.choice([self.printc([]), ("fn", "push", [("str", "L"), ("fn", "line_number", [], [])], [])])))
         return {"scan": scan or self.scan(), "comps": comps, "mode": mode}
+
+    def control(self):
+        r = self.r
+        k = r.choice(["stop", "skip", "advance", "stopw", "skipw"])
+        if k == "stop":
+            return ("fn", "stop", [self.boolv(2)], [])
+        if k == "skip":
+            return ("fn", "skip", [self.boolv(2)], [])
+        if k == "advance":
+            return ("when", self.boolv(2), ("fn", "advance", [("int", r.choice([1, 2, 3]))], []))
+        if k == "stopw":
+            return ("when", self.boolv(2), ("fn", "stop", [], []))
+        return ("when", self.boolv(2), ("fn", "skip", [], []))
+
+    def failform(self):
+        r = self.r
+        k = r.choice(["when", "when", "fas", "valid", "failed"])
+        if k == "when":
+            return ("when", self.boolv(2), ("fn", "fail", [], []))
+        if k == "fas":
+            return ("fn", "fail_and_stop", [self.boolv(2)], [])
+        if k == "valid":
+            return ("assign", self.fresh("v"), None, [], ("fn", "valid", [], []))
+        return ("when", ("fn", "failed", [], []), ("fn", "push", [("str", "fl"), ("fn", "line_number", [], [])], []))
+
+    def printc(self, quals=()):
+        r = self.r
+        refs = ["$.csvpath.line_number", "$.csvpath.count_matches", "$.csvpath.count_scans", "$.headers.a", "$.headers.c", "$.headers.1"]
+        refs += [f"$.variables.{v}" for v in (self.nvars + self.svars)[:3]]
+        parts = []
+        for _ in range(r.randint(1, 3)):
+            parts.append(r.choice(["line ", "v=", "x ", "at: "]))
+            parts.append(r.choice(refs))
+            parts.append(r.choice([" ", " ;", " end"]))
+        q = list(quals)
+        if r.random() < 0.15:
+            q.append("once")
+        return ("print", "".join(parts).strip(), q)
 
     def scan(self):
         r = self.r
